@@ -17,15 +17,16 @@ CLAIM = {
              "implementations give the same result, and a structurally malformed input is rejected by all three; refutation witnesses for the "
              "modelled divergences. Tie / search: the C01 case stream runs in three worker processes (default, SONIC_USE_OPTDEC=1, "
              "+SONIC_USE_FASTMAP=1); results are compared pairwise on every valid document, and every structurally malformed input must be "
-             "rejected by all (structural oracle: a plain Go reference parser)."),
+             "rejected by all (structural oracle: a plain Go reference parser). Every decoded destination is kept alive until the end of its "
+             "process and dumped again after all other cases and two collections: the end-of-run dumps are compared, and a destination that changed "
+             "after its Unmarshal returned (memory shared with pooled or later-reused buffers) is a violation."),
     "note": ("Trusted: as C01. native parse_with_padding is modelled by its contract (strict reader) only; optdec functors are hand-modelled "
              "for the listed branches, everything else about optdec is covered by the differential run only."),
     "technique": "Coq proof over a hand-written model with an implementation parameter + three-process differential run",
 }
 
-# (finding id, tags, predicate(kind, jit, opt, fast))  kind: "jo-err" "jo-val" "of" "malformed" "panic-jit" "panic-opt"
+# (finding id, tags, predicate(kind, jit, opt, fast))  kind: "jo-err" "jo-val" "of" "malformed" "panic-jit" "panic-opt" "alias-jit" "alias-opt" "alias-fast"
 FINDINGS = [
-    ("KF-C11-base64-panic", ("b64pad",), lambda k, a, b, f: k == "panic-opt"),
     ("KF-C11-utf8-panic", ("badutf8",), lambda k, a, b, f: k == "panic-opt"),
     ("KF-C11-jit-malformed-accepted", ("unterm32",), lambda k, a, b, f: k == "malformed" and a == "O" and b != "O" and f != "O"),
     ("KF-C11-float-inf", ("floatinf",), lambda k, a, b, f: k == "jo-err" and b == "E"),
@@ -38,6 +39,8 @@ FINDINGS = [
     ("KF-C11-embptr-null", ("embptrnull",), lambda k, a, b, f: k == "jo-val"),
     ("KF-C11-slice-grow", ("slicestale",), lambda k, a, b, f: k == "jo-val"),
     ("KF-C11-fastmap-dup-null", ("dupnull",), lambda k, a, b, f: k == "of"),
+    ("KF-C11-quoted-unmarshaler", ("qunm",), lambda k, a, b, f: k in ("jo-err", "jo-val")),
+    ("KF-C11-mapstr-null-merge", ("mapstrnull",), lambda k, a, b, f: k == "jo-val"),
 ]
 
 
